@@ -285,7 +285,7 @@ pub fn alphabet_a() -> Vec<char> {
 
 /// Reduced alphabet used below the full-cube depth inside a sequence.
 fn reduced_alphabet() -> Vec<char> {
-    vec!['0', '5', '9', ';', '?', ' ', '>', '\x07', '\x0a', '\x0d', '$', '\x18', 'H', 'm', 'z', '\x1b', '\\', '\u{9c}', 'a', ']']
+    vec!['0', '5', '9', ';', '?', ' ', '>', '\x07', '\x0a', '\x0d', '$', '\x18', 'H', 'm', 'z', '\x1b', '\\', '\u{9c}', 'a', ']', '\u{e9}', '\u{30a2}']
 }
 
 pub const PROBE: &str = "x\x1b[2;3Hy\x1b[B\x1b[4l";
